@@ -4,13 +4,12 @@ use std::io::{BufRead, BufReader, Write};
 use std::path::{Path, PathBuf};
 use std::process::{Command, Stdio};
 use std::sync::atomic::Ordering;
-use std::sync::Arc;
 use std::time::Instant;
 
 use serde::{Deserialize, Serialize};
 use serde_json::{json, Value};
 
-use crate::exec::{self, execute, ExecCtx, RunStats};
+use crate::exec::{self, execute_checked as execute, ExecCtx, RunStats};
 use crate::findings;
 use crate::plan::{self, Plan};
 use crate::rng::fnv_str;
@@ -408,7 +407,8 @@ pub fn check(property: &str, tier: &str) -> i32 {
     }
     let wall = started.elapsed().as_secs_f64();
     for (id, (what, sig)) in &known_seen {
-        println!("KNOWN-FINDING: property={} {} [{}; signature: {}]", property, what, id, sig);
+        let short: String = what.chars().take(260).collect();
+        println!("KNOWN-FINDING: property={} {}{} [{}; signature: {}]", property, short, if what.chars().count() > 260 { "…" } else { "" }, id, sig);
     }
     for r in &unknown {
         println!("VIOLATION property={} replay={}", property, r.replay);
